@@ -460,21 +460,16 @@ def r6_5(prog, rep, pp):
         obl(rep, f, f.node, "R6.5", bool(srcs), f"main effect: {want}", nontrivial=False)
     both = [i for f in (ts, tn) for i in walk_local(f.node) if isinstance(i, ast.If) and unparse(i.test) == "self.kind == 'interaction'"]
     obl(rep, tn, tn.node, "R6.5", len(both) == 2, "both siblings select the interaction branch by the remembered self.kind")
-    gs = prog.fn("terms.terms.GroupSpecificTerm.set_data")
-    gn = prog.fn("terms.terms.GroupSpecificTerm.eval_new_data")
-    forms = []
-    for f in (gs, gn):
-        kr = [x for x in calls_in(f.node) if dotted(x.func) == "linalg.khatri_rao"]
-        forms.append([unparse(a_) for a_ in kr[0].args] if len(kr) == 1 else None)
-    obl(rep, gn, gn.node, "R6.5", forms[0] == forms[1] == ["Ji.T", "Xi.T"],
-        "both GroupSpecificTerm siblings build khatri_rao(Ji.T, Xi.T).T (factor first)", str(forms), f"training {forms[0]}, prediction {forms[1]}")
-    defs_s = {unparse(t): unparse(s.value) for s in walk_local(gs.node) if isinstance(s, ast.Assign) for t in ([s.targets[0]] if not isinstance(s.targets[0], ast.Tuple) else [])}
-    tup = [s for s in walk_local(gs.node) if isinstance(s, ast.Assign) and isinstance(s.targets[0], ast.Tuple)]
-    ok = any(unparse(s.targets[0]) == "(Xi, Ji)" and unparse(s.value) == "(self.expr.data, self.factor.data)" for s in tup)
-    defs_n = {unparse(s.targets[0]): unparse(s.value) for s in walk_local(gn.node) if isinstance(s, ast.Assign) and isinstance(s.targets[0], ast.Name)}
-    ok2 = any(unparse(s.value) == f"self.expr.eval_new_data({gn.params[1]})" and unparse(s.targets[0]) == "Xi" for s in walk_local(gn.node) if isinstance(s, ast.Assign)) and \
-        any(unparse(s.value) == f"self.factor.eval_new_data({gn.params[1]})" and unparse(s.targets[0]) == "Ji" for s in walk_local(gn.node) if isinstance(s, ast.Assign))
-    obl(rep, gn, gn.node, "R6.5", ok and ok2, "Xi comes from the effect, Ji from the grouping factor, in both siblings")
+    # both GroupSpecificTerm siblings build the same product of the same two operands (decided on abstract values: C05's R5.1)
+    from . import C05
+    sub = rep.sub()
+    C05.r5_1(prog, sub)
+    for it in sub.items:
+        if "operand of the product" in it["construct"] or "khatri_rao" in it["construct"]:
+            it = dict(it)
+            it["rule"] = "R6.5"
+            rep.items.append(it)
+            rep.counts["R6.5"] = rep.counts.get("R6.5", 0) + 1
     # Call: same call object, same environment
     st = prog.fn("terms.call.Call.set_type")
     en = prog.fn("terms.call.Call.eval_new_data")
